@@ -21,6 +21,8 @@ CLAIMED = {
          "must-facts at send sites (guard-before-send), loop-nest pair coverage, randomness-freshness dependence"),
  'C17': ("Static ordering/guard analysis of the two-party coin flip: every send whose value exposes the secret share (not hidden under an exponentiation) has, among the must-facts of its program point, the receipt and membership check of every other participant's commitment; the opening of the peer enters the result only after its range checks and the commitment equation; the result is the running sum modulo q. The multi-party variant and equality of the outputs are not decided.", "§3 C17",
          "typestate/ordering via must-facts at send sites with secrecy taint declassified at exponentiation; frozen guard inventory"),
+ 'C12': ("Static taint-to-sink analysis with sanitizer facts over what is reachable from the wire entry points: every element access on/with untrusted data in the OpenPGP decoders, importers and verifiers satisfies index < capacity (sound linear prover over the must-facts); assertions on untrusted data are dominated by an explicit guard locally or at every tainting call site; wire moduli are non-zero; no null constant reaches GMP; allocations / stack arrays / resizes sized by decoded integers are bounded; variadic hashes do not read past their arguments. A closed list of sink kinds, not absence of all memory errors; integer wrap-around, raw-buffer capacities and termination are not claimed.", "§3 C12",
+         "interprocedural taint (value and shape) to a closed list of sinks, discharged by must-facts and a linear prover"),
 }
 NA = {
  'C01': "algebraic identity over runtime group elements for all masking chains; no clause visible in code shape beyond what C03/C05/C08/C12 claim",
